@@ -152,6 +152,8 @@ func init() {
 
 func init() {
 	families["C11"] = &rt.Family{Prop: "C11", Module: "MC_C11", PackSize: 1, JudgeBuild: true,
+		// allOf lists of two documents that hold the textually identical branch "$ref": "#/$defs/Base"
+		More: []rt.Extra{{Module: "MC_C10", ExtraCfg: tierCfg, Keep: func(u *rt.Unit) bool { return u.Str("ctx") == "twoall" }}},
 		Select: func(units []*rt.Unit, tier string, rng *rand.Rand) []*rt.Unit {
 			if tier == "thorough" {
 				return units
@@ -238,6 +240,15 @@ func Run(prop, tier string) int {
 		return rt.RunFamily(f, tier)
 	}
 	fmt.Printf("INCONCLUSIVE property=%s no check registered\n", prop)
+	return 2
+}
+
+// SelfTest runs the binding demonstration of a runtime family (development aid).
+func SelfTest(prop, tier string) int {
+	if f, ok := families[prop]; ok && prop != "C12" && prop != "C16" && prop != "C19" {
+		return rt.SelfTest(f, tier)
+	}
+	fmt.Printf("INCONCLUSIVE property=%s no selftest for this check\n", prop)
 	return 2
 }
 
